@@ -40,7 +40,7 @@ class RefResult:
     def __init__(self):
         self.at = {}          # x -> (t, x, y, z, vx, vy, vz) or None when not reached
         self.k_max = 0.0      # largest drag rate rho*|v-w|*f along the path [1/s]
-        self.switches = []    # [(t, |dw|)] wind changes actually crossed
+        self.switches = []    # [(t, |dw|, |da|)] wind changes actually crossed, with the jump in acceleration
         self.steps = 0
         self.path_air = 0.0   # air-relative path length [ft]
         self.v_min = float("inf")
@@ -131,7 +131,13 @@ def solve(spec, xs, density_mach, drag_by_mach, alt0_ft, h=0.05, gravity=G_STD, 
                 new = segs[widx][1] if widx < len(segs) else (0.0, 0.0, 0.0)
                 dw = sqrt((new[0] - old[0]) ** 2 + (new[2] - old[2]) ** 2)
                 if dw > 0:
-                    res.switches.append((t, dw))
+                    # the acceleration the projectile feels under the old and under the new wind, at the state of the switch:
+                    # what a solver that notices the switch one step late gets wrong for that step (near Mach 1 this is much
+                    # more than drag rate x |dw|, because the drag function is steep there)
+                    _, aox, aoy, aoz = deriv(py, vx, vy, vz, old[0], old[2])
+                    _, anx, any_, anz = deriv(py, vx, vy, vz, new[0], new[2])
+                    da = sqrt((anx - aox) ** 2 + (any_ - aoy) ** 2 + (anz - aoz) ** 2)
+                    res.switches.append((t, dw, da))
             continue
         if nvx <= 0 and nx < nb:
             res.stopped = "moving backwards"
